@@ -37,7 +37,8 @@ RULE = ("part A: random op sequences on the real Storage (put with ids equal/une
         "maintenance); part C: value lists for post_process_values / Crawl.values and end-to-end find_values; "
         "distinct = distinct op sequence (hash); non-trivial = sequence contains at least one accepted and one rejected "
         "store (B), one replacement decision (A), one forged/duplicate-signer entry (C), a byte string whose signed fields parse "
-        "(D), a store_on_nodes call with an oversized or more than 8 values (F)")
+        "that is accepted as signed or rejected only for its signature (D), a store_on_nodes call that stored some but not all "
+        "offered values (F)")
 TRUSTED_BASE = [
     "tools/gen_dht.py: AST recognisers for the shapes listed in its docstring (anything else is a TranslatorError)",
     "hand-written model Ipv8/C15/Model.lean (Storage list manipulation, rate limit, interval tasks as a per-second tick, "
@@ -465,14 +466,15 @@ def gen_node_ops(rng, n):
         if rng.random() < 0.5:
             ops.append(("adv", rng.choice([1, 2, 3, 5, 7])))
         if r < 0.20:
-            ops.append(("find", ident, rng.randrange(6), rng.choice([0, 0, 0, 0, 1, 2, 9]), rng.random() < 0.1))
+            ops.append(("find", ident, rng.randrange(6), rng.choice([0, 0, 0, 0, 1, 2, 9]), rng.random() < 0.1,
+                        rng.random() < 0.35))
         elif r < 0.58:
             tk = rng.choice(["last", "last", "last", "last", "first", "nth", "other_addr", "other_key", "s2", "junk",
                              "flip", "last"])
             nvals = rng.choice([1] * 7 + [2] * 4 + [3, 3, 4, 8, 8, 9, 10, 0])
             vals = tuple(rand_blob_spec(rng) for _ in range(nvals))
             if tk == "last" and rng.random() < 0.5:
-                ops.append(("find", ident, rng.randrange(6), 0, False))   # refresh the token first, as a client would
+                ops.append(("find", ident, rng.randrange(6), 0, False, rng.random() < 0.3))   # refresh the token first
             ops.append(("store", ident, (tk, rng.randrange(8)), rng.randrange(6), vals))
         elif r < 0.78:
             ops.append(("adv", rng.choice(ADV_CHOICES)))
@@ -568,6 +570,17 @@ class NodeRun:
         nidx = Idx()
         t_start = loop.time()
         assert t_start == int(t_start)
+        # observe when the node really cleans its storages (whatever schedule the code uses)
+        from ipv8.dht import storage as storage_mod
+        clean_runs = []
+        orig_clean = storage_mod.Storage.clean
+
+        def recording_clean(st_self, _orig=orig_clean):
+            if st_self in ov.storages.values():
+                clean_runs.append(loop.time())
+            return _orig(st_self)
+        storage_mod.Storage.clean = recording_clean
+        self._restore = lambda: setattr(storage_mod.Storage, "clean", orig_clean)
         self.emit(f"reset {int(t_start)}", "ok")
         targets = [hashlib.sha1(b"target0").digest(), W.mid[0], W.mid[1],
                    hashlib.sha1(W.blob(("str", 0, 0))).digest(), hashlib.sha1(b"target4").digest(),
@@ -655,11 +668,16 @@ class NodeRun:
         def tok_ref(tok):
             return "j" if tok[3] is None else f"r{tok[3]}"
 
-        async def do_find(i, ident, ti, offset, force, node=S):
+        async def do_find(i, ident, ti, offset, force, node=S, lan_other=False):
             k, a = ident
             ident_no[0] += 1
+            lan = addrs[a]
+            if lan_other and node is S:
+                # the requester names another address as its LAN address: the token must still be bound to the source
+                lan = addrs[(a + 1 + ident_no[0] % 2) % 3]
+                ctx.count("B.find:lan-differs-from-source")
             pkt = pack(k, FindRequestPayload.msg_id,
-                       FindRequestPayload(ident_no[0], addrs[a], targets[ti], offset, force))
+                       FindRequestPayload(ident_no[0], lan, targets[ti], offset, force))
             data = await deliver(node, a, pkt, FindResponsePayload.msg_id)
             if node is not S:
                 if data is not None:
@@ -683,7 +701,8 @@ class NodeRun:
             if stored_now > 8 and not force:
                 ctx.count("B.find:more-stored-than-limit")
             if len(resp.values) > SPEC_MAX_FIND:
-                self.fail("DHTCommunity.on_find_request:too-many-values", f"{len(resp.values)} values in one response", i)
+                ctx.count("B.find:more-than-8-values-returned")   # no oracle: the property fixes no find limit; the model
+                #                                                   (generated MAX_VALUES_IN_FIND) is compared instead
 
         async def do_ping(ident):
             k, a = ident
@@ -699,7 +718,7 @@ class NodeRun:
             now = loop.time()
             ctx.count("B.op:" + op[0])
             if op[0] == "find":
-                await do_find(i, op[1], op[2], op[3], op[4])
+                await do_find(i, op[1], op[2], op[3], op[4], lan_other=len(op) > 5 and bool(op[5]))
                 if op[1] not in s2_tokens:
                     await do_find(i, op[1], op[2], 0, False, node=S2)
             elif op[0] == "burst":
@@ -727,9 +746,13 @@ class NodeRun:
                     # a scheduled value_maintenance run (every SPEC_VALUE_MAINTENANCE s since creation) fell into this
                     # advance: whatever survives must have been within its lifetime when that run happened
                     t_end = loop.time()
-                    k_last = int((t_end - t_start) // SPEC_VALUE_MAINTENANCE)
-                    t_run = t_start + k_last * SPEC_VALUE_MAINTENANCE
-                    if k_last >= 1 and t_run > now:
+                    runs_in_adv = [t for t in clean_runs if now < t <= t_end]
+                    if t_end - max(clean_runs + [t_start]) > 2 * SPEC_MAX_AGE:
+                        self.fail("DHTCommunity.value_maintenance:never-runs",
+                                  f"no maintenance run of the storage for {int(t_end - max(clean_runs + [t_start]))} s "
+                                  f"(twice the longest lifetime): expired values are never removed", i)
+                    if runs_in_adv:
+                        t_run = runs_in_adv[-1]
                         ctx.count("B.scheduled-maintenance-crossed")
                         for ti, tg in enumerate(targets):
                             for b in dump(tg):
@@ -874,6 +897,7 @@ class NodeRun:
             if op[0] in ("adv", "clean"):
                 for tg in targets:
                     self.emit(f"dump {W.h20(tg)}", W.uids(dump(tg)))
+        self._restore()
         await S.stop()
         await S2.stop()
         mep.internet.clear()
@@ -917,6 +941,7 @@ def part_b(ctx: Ctx, nscen: int, use_model: bool, seqs=None):
             except AssertionError:
                 raise
             except Exception as e:  # a direct call into the node raised: the model has no such behaviour
+                getattr(r, "_restore", lambda: None)()
                 ctx.disagree(f"part B: implementation raised {type(e).__name__}: {e}", {"part": "B", "ops": ops})
                 continue
             runs.append(r)
@@ -1250,7 +1275,8 @@ def part_f(ctx: Ctx, ncases: int, use_model: bool, seqs=None):
                 big = [b for b in values if len(b) > SPEC_MAX_SIZE]
                 ctx.count("F.values:n%d" % min(len(values), 12))
                 ctx.count("F.values:with-oversized" if big else "F.values:all-within-size")
-                interesting = interesting or bool(big) or len(values) > SPEC_MAX_VALUES
+                interesting = interesting or (after != before and len(after) - len(before) < len(set(values)))
+                # non-trivial = the local store changed and at least one offered value was not stored
                 new = [b for b in after if b not in before]
                 if len(new) > SPEC_MAX_VALUES:
                     ctx.oracle_fail("DHTCommunity.store_on_nodes:too-many-stored",
@@ -1401,7 +1427,8 @@ def part_d(ctx: Ctx, ncases: int, use_model: bool):
                 ctx.count("D.unser:none" + (":badsig" if f is not None and keyok else ""))
             lines.append(f"unserb {v.hex() or '-'} {keyok} {siglen} {valid} {canon.hex() or '-'}")
             impl.append(got + q)
-            ctx.case(("D", v.hex()), f is not None)      # non-trivial = the three signed fields parse
+            ctx.case(("D", v.hex()), r is not None and r[1] is not None or (f is not None and keyok and not valid))
+            # non-trivial = accepted as signed, or rejected only because the signature does not verify
             # the description handed to the abstract model (parts B, C) agrees with the real parser on unmutated blobs
             if kind == "same" and W.truth[base]["ok"] is not None:
                 w = W.truth[base]["wire"]
@@ -1460,14 +1487,15 @@ def run(ctx: Ctx):
 
 
 def search(ctx: Ctx, reason: str):
-    part_a(ctx, 3000, False)
+    """widened implementation-only search after an obligation broke; sized to stay well under two minutes"""
+    part_a(ctx, 2000, False)
     if not ctx.failures:
-        part_b(ctx, 500, False)
+        part_b(ctx, 300, False)
     if not ctx.failures:
-        part_c(ctx, 3000, False)
-        part_c_e2e(ctx, 60)
-        part_d(ctx, 6000, False)
-        part_f(ctx, 400, False)
+        part_c(ctx, 2000, False)
+        part_c_e2e(ctx, 40)
+        part_d(ctx, 4000, False)
+        part_f(ctx, 200, False)
 
 
 def replay_value(ctx: Ctx, v: bytes):
